@@ -1,7 +1,8 @@
 #!/usr/bin/env python3
 """Re-runs the quick tier of a check against a stored legal-alternative change after the check's oracle was
 corrected, and records the result next to the first one (meta.json: after_correction, verdict).
-usage: tools/legal_recheck.py <name under /verif/legal> <ID> [verdict text]   (scratch worktree $WT, default /tmp/wt-mine)"""
+usage: tools/legal_recheck.py <name under /verif/legal> <ID> [verdict text]   (scratch worktree $WT, default /tmp/wt-mine;
+BASE=/verif/benign FIELD=final_rerun re-runs a stored behaviour-preserving change and records it under that field)"""
 import json, os, re, subprocess, sys
 name, cid = sys.argv[1], sys.argv[2]
 verdict = sys.argv[3] if len(sys.argv) > 3 else None
@@ -10,7 +11,7 @@ env = dict(os.environ, GOFLAGS="-mod=mod", GOPROXY="off", GOSUMDB="off", GOTOOLC
 def sh(cmd, cwd=wt, e=None):
     p = subprocess.run(cmd, shell=True, cwd=cwd, env=e or env, capture_output=True, text=True, timeout=3600)
     return p.returncode, p.stdout + p.stderr
-d = os.path.join("/verif/legal", name)
+d = os.path.join(os.environ.get("BASE", "/verif/legal"), name)
 head = sh("git rev-parse HEAD", cwd="/repo")[1].strip()
 if not os.path.isdir(wt):
     sh(f"git -C /repo worktree add --detach {wt} HEAD", cwd="/")
@@ -24,7 +25,7 @@ classes = sorted(set(re.findall(r"class=(\S+)", out))) if rc == 1 else []
 last = [l for l in out.splitlines() if " quick: " in l][-1:] or [""]
 sh("git checkout -q -- .")
 m = json.load(open(os.path.join(d, "meta.json")))
-m.setdefault("after_correction", {})[cid] = {"exit": rc, "violation_classes": classes, "summary": last[0][:200], "repo_head": head}
+m.setdefault(os.environ.get("FIELD", "after_correction"), {})[cid] = {"exit": rc, "violation_classes": classes, "summary": last[0][:200], "repo_head": head}
 if verdict:
     m["verdict"] = verdict
 json.dump(m, open(os.path.join(d, "meta.json"), "w"), indent=1)
